@@ -154,6 +154,15 @@ pub fn verif_root() -> PathBuf {
     PathBuf::from("/verif")
 }
 
+/// where evidence and replay output go: VERIF_OUT (runs against seeded changes must not
+/// overwrite the evidence of the unchanged tree) or the root
+pub fn out_root() -> PathBuf {
+    match std::env::var("VERIF_OUT") {
+        Ok(p) if !p.is_empty() => PathBuf::from(p),
+        _ => verif_root(),
+    }
+}
+
 pub fn load_known(property: &str) -> Vec<KnownEntry> {
     let path = verif_root().join("known_findings.json");
     let Ok(text) = std::fs::read_to_string(&path) else {
@@ -554,7 +563,7 @@ impl Check {
             *self.labels.entry(format!("more_violations:{}", f.key)).or_insert(0) += 1;
             return;
         }
-        let dir = verif_root().join("replays").join(&self.property);
+        let dir = out_root().join("replays").join(&self.property);
         let _ = std::fs::create_dir_all(&dir);
         let h = hash_choices(choices) ^ fnv(campaign.as_bytes());
         let fname = format!("{}-{:016x}.json", sanitize(&f.key), h);
@@ -669,7 +678,7 @@ impl Check {
             ("violations".into(), Js::int(self.violations.len() as i128)),
         ]);
         if self.replay_only.is_none() {
-            let dir = verif_root().join("evidence");
+            let dir = out_root().join("evidence");
             let _ = std::fs::create_dir_all(&dir);
             let path = self.evidence_path.clone().unwrap_or_else(|| dir.join(format!("{}.json", self.property)));
             if let Err(e) = std::fs::write(&path, ev.render()) {
